@@ -86,14 +86,14 @@ fn alpn_list(t: &str) -> Vec<Vec<u8>> {
     }
 }
 
-fn install() {
+pub fn install() {
     static ONCE: Once = Once::new();
     ONCE.call_once(|| {
         let _ = rustls::crypto::ring::default_provider().install_default();
     });
 }
 
-fn client_config(alpn: &str) -> rustls::ClientConfig {
+pub fn client_config(alpn: &str) -> rustls::ClientConfig {
     let mut roots = rustls::RootCertStore::empty();
     for c in CertificateDer::pem_slice_iter(CA) {
         roots.add(c.unwrap()).unwrap();
@@ -103,7 +103,7 @@ fn client_config(alpn: &str) -> rustls::ClientConfig {
     cfg
 }
 
-fn server_config(which: &str, alpn: &str) -> rustls::ServerConfig {
+pub fn server_config(which: &str, alpn: &str) -> rustls::ServerConfig {
     let (c, k) = match which { "othername" => OTHER, "untrusted" => UNTRUSTED, _ => GOOD };
     let chain: Vec<CertificateDer<'static>> = CertificateDer::pem_slice_iter(c).map(|c| c.unwrap()).collect();
     let key = PrivateKeyDer::from_pem_slice(k).unwrap();
